@@ -839,3 +839,64 @@ Proof. rewrite write_match_transitions_lines. apply reads_scans, reads_match. Qe
 
 Lemma completion_scans cmd t : scans cmd (List.length (completion_stmts t)) (write_completion_tables t) (completion_stmts t).
 Proof. rewrite write_completion_tables_lines. apply reads_scans, reads_completion. Qed.
+
+Definition acc_stmt (acc : list N) : stmt := SAssoc "accepting_states" (map (fun p => (fst p, [snd p])) (acc_pairs acc)).
+Definition lits_stmt (t : tables) : stmt := SLits "literals" (map (fun l => snd (fst l)) (t_literals t)).
+Definition fn_name (command suf : string) : string := append "_" (append command suf).
+
+Definition wrapper_stmts (command : string) (id : N) (t : tables) (acc : list N) : list stmt :=
+  [SFunc (fn_name command (append "_subword_" (sN id))); acc_stmt acc; lits_stmt t]
+  ++ match_stmts t ++ completion_stmts t ++ [SCall (fn_name command "_subword"); SEnd].
+
+Definition shape_fn_stmts (command : string) (sid : N) (t : tables) : list stmt :=
+  [SFunc (fn_name command (append "_subword_shape_" (sN sid)))]
+  ++ match_stmts t ++ completion_stmts t ++ [SCall (fn_name command "_subword"); SEnd].
+
+Definition shape_wrapper_stmts (command : string) (id sid : N) (t : tables) (acc : list N) : list stmt :=
+  [SFunc (fn_name command (append "_subword_" (sN id))); acc_stmt acc; lits_stmt t;
+   SCall (fn_name command (append "_subword_shape_" (sN sid))); SEnd].
+
+Section Wrappers.
+Variable command : string.
+Hypothesis Hc : name_ok command.
+
+Lemma header_scans suf :
+  forallb is_name_char (list_ascii_of_string suf) = true -> no_nl suf = true -> strip "_cmd_" suf = None ->
+  scans command 1 (append (append "_" (append command (append suf " () {"))) nl) [SFunc (fn_name command suf)].
+Proof. intros H1 H2 H3. apply (scans_line command _ _ (header_sem command suf Hc H1 H2 H3)). Qed.
+
+Lemma call_scans suf :
+  forallb is_name_char (list_ascii_of_string suf) = true -> no_nl suf = true ->
+  scans command 1 (append (append "    _" (append command (append suf (append " ""$1"" ""$2""" EmptyString)))) nl)
+        [SCall (fn_name command suf)].
+Proof. intros H1 H2. apply (scans_line command _ _ (call_sem command suf Hc H1 H2)). Qed.
+
+Lemma close_scans : scans command 1 (append "}" nl) [SEnd].
+Proof. apply (scans_line command _ _ (close_sem command)). Qed.
+
+Lemma blank_scans : scans command 1 nl [].
+Proof. apply (scans_line command _ _ (blank_sem command)). Qed.
+
+Lemma wrapper_scans id t acc :
+  exists n, scans command n (append (write_subword_wrapper_fn command id t acc) nl) (wrapper_stmts command id t acc).
+Proof.
+  destruct (sub_suffix_ok "_subword_" id eq_refl eq_refl) as [S1 S2].
+  eexists. unfold write_subword_wrapper_fn, wrapper_stmts.
+  rewrite tpl_wrapper_header, tpl_wrapper_call, tpl_close_wrapper.
+  set (A := (("_" ++ command ++ ("_subword_" ++ sN id) ++ " () {") ++ nl)%string).
+  set (F := (("    _" ++ command ++ "_subword" ++ " ""$1"" ""$2""" ++ "") ++ nl)%string).
+  set (G := ("}" ++ nl)%string).
+  rewrite !append_assoc.
+  change ([SFunc (fn_name command ("_subword_" ++ sN id)); acc_stmt acc; lits_stmt t] ++
+          match_stmts t ++ completion_stmts t ++ [SCall (fn_name command "_subword"); SEnd])
+    with ([SFunc (fn_name command ("_subword_" ++ sN id))] ++ [acc_stmt acc] ++ [lits_stmt t] ++
+          match_stmts t ++ completion_stmts t ++ [SCall (fn_name command "_subword")] ++ [SEnd] ++ []).
+  apply scans_app; [apply (header_scans _ S1 S2 eq_refl)|].
+  apply scans_app; [apply accepting_scans|].
+  apply scans_app; [apply literals_scans|].
+  apply scans_app; [apply match_scans|].
+  apply scans_app; [apply completion_scans|].
+  apply scans_app; [apply (call_scans "_subword" eq_refl eq_refl)|].
+  apply scans_app; [apply close_scans|]. apply blank_scans.
+Qed.
+End Wrappers.
